@@ -88,11 +88,13 @@ PREPS = [
 OPS = [["ZII", "IXI", "YYI"], ["XXZ", "III", "ZZZ"], ["IIZ"], ["YIX", "ZIZ", "III"], ["XYZ", "ZXY"]]
 
 
-def exact_expectation(prep_gates, n, word, desired=None):
+def exact_expectation(prep_gates, n, word, desired=None, init=None):
     """<psi|P|psi> from qsem (numeric), with projection on mid-circuit outcomes when MEASURE gates are present"""
     import numpy as np
     psi = np.zeros(2 ** n, dtype=complex)
     psi[0] = 1
+    if init is not None:
+        psi = np.array(init, dtype=complex)
     k = 0
     for g in prep_gates:
         if g.name == "MEASURE":
@@ -116,7 +118,7 @@ def build_prep(spec):
 
 @contract("C02", "O5.frequency_route.linearity", level="S", targets=[(BK, "Backend._get_expectation_value_from_frequencies"), (BK, "Backend.simulate"),
                                                                     (MB, "measurement_basis_gates"), (BK, "get_expectation_value_from_frequencies_oneterm")],
-          structures=lambda tier: [{"prep": p, "op": o} for p in range(len(PREPS)) for o in range(len(OPS))],
+          structures=lambda tier: [{"prep": p, "op": o, "init": i} for p in range(len(PREPS)) for o in range(len(OPS)) for i in (False, True)],
           native_samples=lambda st, rnd, tier: [{f"c{j}": rnd.uniform(-2, 2) for j in range(3)} for _ in range(2)])
 def o5(h, st):
     """_get_expectation_value_from_frequencies == sum_t c_t <psi|P_t|psi> as a linear form in the coefficients c_t (identity term contributes c),
@@ -136,8 +138,13 @@ def o5(h, st):
     sim = get_backend("cirq")
     c = mk_circuit(gates, n)
     desired = "1" if mixed else None
-    val = h.call(BK, "Backend._get_expectation_value_from_frequencies", sim, qop, c, None, desired)
-    exps = [exact_expectation(gates, n, w, desired)[0] for w in words]
+    init = None
+    if st.get("init"):
+        rs = np.random.default_rng(7)
+        init = rs.normal(size=8) + 1j * rs.normal(size=8)
+        init = init / np.linalg.norm(init)
+    val = h.call(BK, "Backend._get_expectation_value_from_frequencies", sim, qop, c, init, desired)
+    exps = [exact_expectation(gates, n, w, desired, init)[0] for w in words]
     if h.symbolic:
         val = Poly._coerce(val)
         lf = val.linear_form()
@@ -159,7 +166,7 @@ def routes(tier):
     sts = []
     for p in range(len(PREPS)):
         for o in range(len(OPS)):
-            for route in ("plain", "initial_statevector", "complex", "variance", "stderr"):
+            for route in ("plain", "initial_statevector", "complex", "variance", "stderr", "variance_init"):
                 sts.append({"prep": p, "op": o, "route": route, "backend": "cirq"})
     for o in range(len(OPS)):
         sts.append({"prep": 2, "op": o, "route": "shots_deterministic", "backend": "cirq"})
@@ -206,11 +213,7 @@ def o4(h, st):
     before = snapshot({k: v for k, v in c.__dict__.items() if k not in ("_probabilities", "_applied_gates")})
     init = None
     v0 = None
-    if route == "initial_statevector":
-        if mixed:
-            h.check("n/a", True)
-            h.done()
-            return
+    if route in ("initial_statevector", "variance_init"):
         rs = np.random.default_rng(5)
         v0 = rs.normal(size=8) + 1j * rs.normal(size=8)
         v0 = v0 / np.linalg.norm(v0)
@@ -218,23 +221,17 @@ def o4(h, st):
     def exact():
         tot = 0
         for w, cf in zip(words, coefs):
-            if v0 is None:
-                e, _ = exact_expectation(gates, n, w, desired)
-            else:
-                U = qsem.to_numpy(qsem.unitary(gates, n, exact=False)[0], n)
-                psi = U @ v0
-                P = qsem.to_numpy(qsem.pauli_rows([(i, p) for i, p in enumerate(w) if p != "I"], n, qsem.Numeric), n)
-                e = float(np.real(psi.conj() @ P @ psi))
+            e, _ = exact_expectation(gates, n, w, desired, v0)
             tot = tot + cf * e
         return tot
-    if route in ("variance", "stderr"):
-        name = "Backend.get_variance" if route == "variance" else "Backend.get_standard_error"
-        val = h.call(BK, name, sim, qop, c, None, desired)
+    if route in ("variance", "stderr", "variance_init"):
+        name = "Backend.get_standard_error" if route == "stderr" else "Backend.get_variance"
+        val = h.call(BK, name, sim, qop, c, init, desired)
         if route == "stderr":
             h.check("standard error is 0 without shots", val == 0.)
         else:
             # Var = sum_t c_t^2 (1 - E_t^2) for exact frequencies
-            ev = sum(cf * cf * (1 - exact_expectation(gates, n, w, desired)[0] ** 2) for w, cf in zip(words, coefs) if w.strip("I"))
+            ev = sum(cf * cf * (1 - exact_expectation(gates, n, w, desired, v0)[0] ** 2) for w, cf in zip(words, coefs) if w.strip("I"))
             h.check("variance == sum c_t^2 (1 - <P_t>^2)", abs(val - ev) < 1e-8, detail=f"{val} vs {ev}")
     elif route == "shots_deterministic":
         zwords = [w for w in words if set(w) <= set("IZ")]
